@@ -119,6 +119,30 @@ class GiveUp(Exception):
     """raised by Ctx.fail when going on would only repeat a failure that is already recorded (and costs minutes)"""
 
 
+class DeadlinePassed(BaseException):
+    """raised in the main thread by Deadline (BaseException: the harnesses' own `except Exception` must not swallow it)"""
+
+
+class Deadline:
+    def __init__(self, seconds):
+        self.seconds = seconds
+        self.passed = False
+
+    def arm(self):
+        import signal
+
+        def fire(signum, frame):
+            self.passed = True
+            raise DeadlinePassed()
+        signal.signal(signal.SIGALRM, fire)
+        signal.setitimer(signal.ITIMER_REAL, self.seconds)
+
+    def disarm(self):
+        import signal
+        signal.setitimer(signal.ITIMER_REAL, 0)
+        signal.signal(signal.SIGALRM, signal.SIG_DFL)
+
+
 def hash_str(s):
     return int.from_bytes(hashlib.blake2b(s.encode(), digest_size=4).digest(), "big")
 
